@@ -6,7 +6,7 @@ import numpy as np
 from symv import cmp, gen
 from symv import graded as G
 from symv import refsym as R
-from symv.dense import describe, embed, is_array, labels_of, struct_sig
+from symv.dense import describe, embed, index_sig, is_array, labels_of, phases_of, struct_sig
 
 META = {
     "level": "exploration",
@@ -29,7 +29,7 @@ META = {
         "symmetries.calc_phase_permutation",
     ],
     "floors": {
-        "quick": {"evaluations": 4000, "distinct_nontrivial": 800, "tables": {"op/tensordot": 1500, "op/transpose": 500, "op/matmul": 150, "op/trace": 100, "op/einsum": 150, "parity/odd-involved": 500, "feature/multi-label-operand": 300, "feature/nested-conjugate-labels": 40, "feature/sector-with->=6-odd-contracted": 300, "feature/sectors>2048": 30, "feature/both-operands>2048-sectors": 5, "feature/left-operand-dense-size>=2**22": 8}},
+        "quick": {"evaluations": 4000, "distinct_nontrivial": 800, "tables": {"feature/sector-with->=17-odd-charges": 1000, "op/tensordot": 1500, "op/transpose": 500, "op/matmul": 150, "op/trace": 100, "op/einsum": 150, "parity/odd-involved": 500, "feature/multi-label-operand": 300, "feature/nested-conjugate-labels": 40, "feature/sector-with->=6-odd-contracted": 300, "feature/sectors>2048": 30, "feature/both-operands>2048-sectors": 5, "feature/left-operand-dense-size>=2**22": 8}},
         "thorough": {"evaluations": 200000, "distinct_nontrivial": 40000, "tables": {"op/tensordot": 80000, "op/transpose": 20000}},
     },
     "exhaustive": {"quick": False, "thorough": False},
@@ -300,6 +300,103 @@ def case_huge_dense(ctx, rng):
     check_contract(ctx, a, b, axa, axb, rng.choice(["fused", "blockwise", "auto", "default"]), "huge-dense")
 
 
+def case_sparse_many_legs(ctx, rng):
+    """Arrays with 12-26 legs and only a handful of stored sectors (the dense form would have
+    2**12 .. 4**26 elements, so the oracle works sector by sector): transposing multiplies each
+    stored block by the sign of the permutation restricted to its odd legs (inversions counted
+    by brute force), moves it to the permuted sector and leaves labels and charge alone.
+    Sectors hold up to 26 odd charges."""
+    sr = ctx.sr
+    sym = rng.choice(["Z2", "Z2", "Z4", "Z2Z2", "BoseFermi"])
+    n = rng.randint(12, 26)
+    pool = {"Z2": [0, 1], "Z4": [0, 1, 2, 3], "Z2Z2": [(0, 0), (0, 1), (1, 0), (1, 1)], "BoseFermi": [(0, 0), (1, 0), (-1, 0), (0, 1)]}[sym]
+    idx = []
+    for k in range(n):
+        full = sym != "Z2" and (k == n - 1 or rng.random() < 0.3)
+        cs = list(pool) if (full or sym == "Z2") else sorted(rng.sample(pool, 2), key=repr)
+        idx.append(sr.BlockIndex({c: 1 for c in cs}, dual=rng.random() < 0.5))
+    if sym == "BoseFermi":
+        # the last leg must be able to close any sector: give it the needed charges below
+        pass
+    duals = [ix.dual for ix in idx]
+    want_odd = rng.random() < 0.8
+    secs = {}
+    charge = None
+    tries = 0
+    while len(secs) < rng.randint(2, 6) and tries < 200:
+        tries += 1
+        head = [rng.choice([c for c in ix.chargemap if (R.par(sym, c) or not want_odd or rng.random() < 0.15)] or list(ix.chargemap)) for ix in idx[:-1]]
+        part = R.sector_charge(sym, head, duals[:-1])
+        if charge is None:
+            last = rng.choice(list(idx[-1].chargemap))
+            charge = R.sector_charge(sym, head + [last], duals)
+        else:
+            need = R.comb(sym, [charge, R.neg(sym, part)])
+            last = R.signed(sym, need, duals[-1])
+            if last not in idx[-1].chargemap:
+                if sym != "BoseFermi":
+                    continue
+                idx[-1] = sr.BlockIndex({**dict(idx[-1].chargemap), last: 1}, dual=duals[-1])
+        secs[tuple(head + [last])] = None
+    if not secs:
+        return
+    vals = gen.Values(rng, "int", rng.choice(["float64", "complex128"]))
+    blocks = {s_: vals((1,) * n) for s_ in secs}
+    cls, extra, kind = gen.pick_class(sr, rng, sym, True)
+    kw = dict(indices=tuple(idx), charge=charge, blocks=blocks, **extra)
+    if R.par(sym, charge):
+        kw["oddpos"] = 5
+    x = cls(**kw)
+    gen.add_phases(rng, x, rng.choice([0, 1, 2]))
+    px = phases_of(x)
+    kind_ = rng.choice(["random", "random", "swap", "cycle", "reverse"])
+    if kind_ == "random":
+        perm = rng.sample(range(n), n)
+    elif kind_ == "swap":
+        perm = list(range(n))
+        i_, j_ = rng.sample(range(n), 2)
+        perm[i_], perm[j_] = perm[j_], perm[i_]
+    elif kind_ == "cycle":
+        k_ = rng.randint(1, n - 1)
+        perm = list(range(k_, n)) + list(range(k_))
+    else:
+        perm = list(range(n - 1, -1, -1))
+    perm = tuple(perm)
+    o = ctx.call(lambda: x.transpose(perm))
+    ctx.evaluated()
+    ctx.count("op", "transpose")
+    ctx.count("stream", "sparse-many-legs")
+    maxodd = max(sum(R.par(sym, c) for c in s_) for s_ in secs)
+    wit = {"op": "transpose", "perm": list(perm), "legs": n, "symmetry": sym, "sectors": [repr(s_) for s_ in secs], "duals": duals, "max_odd_charges_in_a_sector": maxodd}
+    if not o.ok:
+        ctx.violation(f"transpose-raises-{o.excname}", f"{o.exc!r}", wit)
+        return
+    y = o.value
+    py = phases_of(y)
+    if labels_of(y) != labels_of(x) or y.charge != x.charge or [index_sig(i) for i in y.indices] != [index_sig(idx[p]) for p in perm]:
+        ctx.violation("transpose-structure", f"perm={perm}: indices / labels / charge of the result are wrong", wit)
+        return
+    for s_, b in blocks.items():
+        odd = [R.par(sym, s_[p]) for p in perm]
+        inv = sum(1 for i in range(n) for j in range(i + 1, n) if odd[i] and odd[j] and perm[i] > perm[j])
+        s2 = tuple(s_[p] for p in perm)
+        want = np.asarray(b).reshape(-1)[0] * px.get(s_, 1) * (-1 if inv % 2 else 1)
+        if s2 not in y.blocks:
+            ctx.violation("transpose-structure", f"perm={perm}: sector {s2} missing from the result", wit)
+            return
+        got = np.asarray(y.blocks[s2]).reshape(-1)[0] * py.get(s2, 1)
+        if got != want:
+            ctx.violation("transpose-sign", f"perm={perm}: block of sector {s_} ({sum(R.par(sym, c) for c in s_)} odd charges) comes out as {got!r}, graded transposition gives {want!r}", wit)
+            return
+    if len(y.blocks) != len(blocks):
+        ctx.violation("transpose-structure", f"perm={perm}: {len(y.blocks)} blocks in the result, {len(blocks)} in the operand", wit)
+        return
+    ctx.count("feature", "sparse-many-legs")
+    if maxodd >= 17:
+        ctx.count("feature", "sector-with->=17-odd-charges")
+    ctx.nontrivial(("TS", sym, n, perm[:6], maxodd))
+
+
 def case_matmul(ctx, rng):
     sr = ctx.sr
     sym = gen.pick_sym(rng)
@@ -549,6 +646,8 @@ def run(ctx):
         ctx.run_case(case_random, ctx, rng)
     for _, rng in ctx.cases("many-legs", ctx.budget(2500, 50000)):
         ctx.run_case(case_many_legs, ctx, rng)
+    for _, rng in ctx.cases("sparse-many-legs", ctx.budget(6000, 120000)):
+        ctx.run_case(case_sparse_many_legs, ctx, rng)
     for _, rng in ctx.cases("many-sectors", ctx.budget(48, 800)):
         ctx.run_case(case_many_sectors, ctx, rng)
     for _, rng in ctx.cases("huge-dense", ctx.budget(12, 120)):
